@@ -11,6 +11,7 @@ CONSTANTS
   MaxOps = 12
   GenHist = TRUE
   F2Fixed = FALSE
+  CuGuard = FALSE
   Profile = "c18"
 INIT Init
 NEXT GenNext
